@@ -1688,6 +1688,80 @@ func ruleFoldAgree(p *Program, r *Reporter) {
 			}
 			return true
 		})
+		// … or the two are handed out together by a function literal kept in a
+		// local variable: `a, b, ok := operands()` with
+		// `operands := func() (…) { … return W[len(W)-1], W[len(W)-2], true }`
+		if last == nil && prev == nil {
+			ast.Inspect(body, func(n ast.Node) bool {
+				as, ok := n.(*ast.AssignStmt)
+				if !ok || len(as.Rhs) != 1 || len(as.Lhs) < 2 {
+					return true
+				}
+				ce, ok := ast.Unparen(as.Rhs[0]).(*ast.CallExpr)
+				if !ok {
+					return true
+				}
+				fid, ok := ast.Unparen(ce.Fun).(*ast.Ident)
+				if !ok {
+					return true
+				}
+				fobj := info.Uses[fid]
+				if fobj == nil {
+					return true
+				}
+				var lit *ast.FuncLit
+				for _, f := range p.ByPath[Mod+"/vm"].Syntax {
+					ast.Inspect(f, func(m ast.Node) bool {
+						a2, ok := m.(*ast.AssignStmt)
+						if !ok || len(a2.Lhs) != 1 || len(a2.Rhs) != 1 {
+							return true
+						}
+						if id, ok := a2.Lhs[0].(*ast.Ident); ok && (info.Defs[id] == fobj || info.Uses[id] == fobj) {
+							if fl, ok := a2.Rhs[0].(*ast.FuncLit); ok {
+								lit = fl
+							}
+						}
+						return true
+					})
+				}
+				if lit == nil {
+					return true
+				}
+				ast.Inspect(lit.Body, func(m ast.Node) bool {
+					ret, ok := m.(*ast.ReturnStmt)
+					if !ok || len(ret.Results) != len(as.Lhs) {
+						return true
+					}
+					for i, res := range ret.Results {
+						ix, ok := ast.Unparen(res).(*ast.IndexExpr)
+						if !ok {
+							continue
+						}
+						be, ok := ast.Unparen(ix.Index).(*ast.BinaryExpr)
+						if !ok || be.Op != token.SUB {
+							continue
+						}
+						tv := info.Types[be.Y]
+						id, _ := as.Lhs[i].(*ast.Ident)
+						if tv.Value == nil || id == nil {
+							continue
+						}
+						obj := info.Defs[id]
+						if obj == nil {
+							obj = info.Uses[id]
+						}
+						switch k, _ := constant.Int64Val(tv.Value); k {
+						case 1:
+							last = obj
+						case 2:
+							prev = obj
+						}
+					}
+					return true
+				})
+				return true
+			})
+		}
 		side := func(e ast.Expr) string {
 			s := ""
 			ast.Inspect(e, func(n ast.Node) bool {
@@ -1817,6 +1891,19 @@ func ruleFoldAgree(p *Program, r *Reporter) {
 				for _, c := range cs {
 					if c.be.Op.String() != want {
 						good, why = false, fmt.Sprintf("the fold of %s compares with %q; the VM applies %q", op, c.be.Op, want)
+					}
+				}
+				if !good || len(cs) > 0 {
+					// one comparison for all the opcodes, and what is written taken
+					// from a table keyed by the opcode: `out := T[opCode]; if a.value
+					// == b.value { … byte(out.same) } else { … byte(out.differ) }`
+					if ok2, bad2, detail := compareFoldByTable(p, info, body, opParam, op, want, side); ok2 {
+						if bad2 {
+							r.Fail(key, p.Pos(cs[0].pos), detail)
+						} else {
+							r.OkNT(key, p.Pos(cs[0].pos), detail)
+						}
+						continue
 					}
 				}
 				if !good && foldFn != nil {
@@ -2053,6 +2140,168 @@ func vmSqrtIsFloat(p *Program) bool {
 // write what the VM's operator gives for equal integers, with them unequal the
 // opposite.  Every == / != between two values read from entries of one list
 // stands for "the entries are equal" / its negation.
+// compareFoldByTable: the fold compares the two entries once (== or !=) and
+// writes, on either side, a field of a value looked up by the opcode in a
+// package-level map literal that is never written.  Reports whether that
+// shape was found, whether the entry for op is wrong, and the detail.
+func compareFoldByTable(p *Program, info *types.Info, body ast.Node, opParam types.Object, op, want string, side func(ast.Expr) string) (found bool, bad bool, detail string) {
+	if opParam == nil {
+		return false, false, ""
+	}
+	// out := T[opCode]
+	var outObj types.Object
+	var table *types.Var
+	ast.Inspect(body, func(n ast.Node) bool {
+		as, ok := n.(*ast.AssignStmt)
+		if !ok || len(as.Lhs) != 1 || len(as.Rhs) != 1 {
+			return true
+		}
+		ix, ok := ast.Unparen(as.Rhs[0]).(*ast.IndexExpr)
+		if !ok {
+			return true
+		}
+		kid, ok := ast.Unparen(ix.Index).(*ast.Ident)
+		if !ok || info.Uses[kid] != opParam {
+			return true
+		}
+		tid, ok := ast.Unparen(ix.X).(*ast.Ident)
+		if !ok {
+			return true
+		}
+		tv, ok := info.Uses[tid].(*types.Var)
+		if !ok || tv.Pkg() == nil || tv.Parent() != tv.Pkg().Scope() {
+			return true
+		}
+		if id, ok := as.Lhs[0].(*ast.Ident); ok {
+			outObj = info.Defs[id]
+			if outObj == nil {
+				outObj = info.Uses[id]
+			}
+			table = tv
+		}
+		return true
+	})
+	if outObj == nil || table == nil {
+		return false, false, ""
+	}
+	sp := p.SSAPkg[table.Pkg().Path()]
+	if sp == nil {
+		return false, false, ""
+	}
+	if g, ok := sp.Members[table.Name()].(*ssa.Global); !ok || !globalNeverWritten(p, g) {
+		return false, false, ""
+	}
+	// the comparison and what each side writes
+	fieldWritten := func(stmts []ast.Stmt) string {
+		f := ""
+		for _, st := range stmts {
+			ast.Inspect(st, func(n ast.Node) bool {
+				as, ok := n.(*ast.AssignStmt)
+				if !ok || len(as.Lhs) != 1 || len(as.Rhs) != 1 {
+					return true
+				}
+				if _, isIx := ast.Unparen(as.Lhs[0]).(*ast.IndexExpr); !isIx {
+					return true
+				}
+				ast.Inspect(as.Rhs[0], func(m ast.Node) bool {
+					if se, ok := m.(*ast.SelectorExpr); ok {
+						if id, ok := ast.Unparen(se.X).(*ast.Ident); ok && info.Uses[id] == outObj {
+							f = se.Sel.Name
+						}
+					}
+					return true
+				})
+				return true
+			})
+		}
+		return f
+	}
+	var cmpOp token.Token
+	onTrue, onFalse := "", ""
+	ast.Inspect(body, func(n ast.Node) bool {
+		iff, ok := n.(*ast.IfStmt)
+		if !ok || iff.Else == nil {
+			return true
+		}
+		be, ok := ast.Unparen(iff.Cond).(*ast.BinaryExpr)
+		if !ok || (be.Op != token.EQL && be.Op != token.NEQ) {
+			return true
+		}
+		l, rr := side(be.X), side(be.Y)
+		if !((l == "L" && rr == "R") || (l == "R" && rr == "L")) {
+			return true
+		}
+		eb, ok := iff.Else.(*ast.BlockStmt)
+		if !ok {
+			return true
+		}
+		t, f := fieldWritten(iff.Body.List), fieldWritten(eb.List)
+		if t != "" && f != "" {
+			cmpOp, onTrue, onFalse = be.Op, t, f
+		}
+		return true
+	})
+	if onTrue == "" {
+		return false, false, ""
+	}
+	// the table's entry for op
+	var entry map[string]string
+	for _, f := range p.ByPath[table.Pkg().Path()].Syntax {
+		ast.Inspect(f, func(n ast.Node) bool {
+			vs, ok := n.(*ast.ValueSpec)
+			if !ok {
+				return true
+			}
+			for i, nm := range vs.Names {
+				if info.Defs[nm] != types.Object(table) || i >= len(vs.Values) {
+					continue
+				}
+				cl, ok := vs.Values[i].(*ast.CompositeLit)
+				if !ok {
+					continue
+				}
+				for _, el := range cl.Elts {
+					kv, ok := el.(*ast.KeyValueExpr)
+					if !ok || opConstName(info, kv.Key) != op {
+						continue
+					}
+					vcl, ok := kv.Value.(*ast.CompositeLit)
+					if !ok {
+						continue
+					}
+					entry = map[string]string{}
+					st, _ := info.Types[vcl].Type.Underlying().(*types.Struct)
+					for j, fe := range vcl.Elts {
+						if fkv, ok := fe.(*ast.KeyValueExpr); ok {
+							if fid, ok := fkv.Key.(*ast.Ident); ok {
+								entry[fid.Name] = opConstName(info, fkv.Value)
+							}
+						} else if st != nil && j < st.NumFields() {
+							entry[st.Field(j).Name()] = opConstName(info, fe)
+						}
+					}
+				}
+			}
+			return true
+		})
+	}
+	if entry == nil {
+		return true, true, fmt.Sprintf("the table the fold takes its result from has no entry for %s", op)
+	}
+	whenEqual, whenDiffer := entry[onTrue], entry[onFalse]
+	if cmpOp == token.NEQ {
+		whenEqual, whenDiffer = whenDiffer, whenEqual
+	}
+	wantEq, wantNe := "OpTrue", "OpFalse"
+	if want == "!=" {
+		wantEq, wantNe = "OpFalse", "OpTrue"
+	}
+	if whenEqual == wantEq && whenDiffer == wantNe {
+		return true, false, fmt.Sprintf("one comparison of the two entries; the table gives %s for equal and %s for different entries, as the VM's %q does", whenEqual, whenDiffer, want)
+	}
+	return true, true, fmt.Sprintf("the table gives %s for equal and %s for different entries under %s; the VM's %q gives %s and %s", whenEqual, whenDiffer, op, want, wantEq, wantNe)
+}
+
 func compareFoldByValue(p *Program, fn *ssa.Function, op, want string) (bool, string) {
 	oc := p.Opcodes()
 	var opc ssa.Value
